@@ -40,6 +40,7 @@ REQUIRED = ["objects", "layout_compared", "roundtrips", "table_dispatch",
             "nx_action_bodies_compared", "nx_message_bodies_compared",
             "nxm_numbers_compared", "decoded_as_last_message_in_buffer",
             "stats_of_unknown_types", "stats_replies_with_empty_lists",
+            "cases_with_the_library_logger_installed",
             "decoded_after_a_failed_decode", "encoded_after_a_failed_encode"]
 TIMEOUT = {"quick": 900, "thorough": 7200}
 
@@ -584,6 +585,18 @@ def check_match_weak (ctx, m, rng):
 
 # --------------------------------------------------------------------------
 
+_QL = []
+def _quiet_logger ():
+  if not _QL:
+    import logging
+    l = logging.getLogger("pvm.libopenflow_01")
+    l.propagate = False
+    l.addHandler(logging.NullHandler())
+    l.setLevel(logging.DEBUG)
+    _QL.append(l)
+  return _QL[0]
+
+
 def do_case (case, rep):
   import pox.openflow.libopenflow_01 as of
   ctx = Ctx(rep, case)
@@ -591,6 +604,10 @@ def do_case (case, rep):
   kind = case["kind"]
   packed = None
   nontrivial = True
+  # a running controller gives the library a logger (of_01.launch does); the
+  # codec has to encode and decode the same with and without one
+  of._logger = _quiet_logger() if case.get("logger") else None
+  if case.get("logger"): rep.count("cases_with_the_library_logger_installed")
   try:
     if kind.startswith("msg:"):
       m = ofgen.gen_message(rng, kind[4:])
@@ -720,6 +737,7 @@ def run (spec, rep):
   for k in ks:
     for i in range(spec["per"]):
       case = dict(kind=k, seed="%s/%s/%d" % (base, k, i))
+      if spec["sub"] % 3 == 1: case["logger"] = True
       p = do_case(case, rep)
       if first and p is not None and k.startswith("msg:flow_mod"):
         rep.sample(dict(case=case, packed=bytes(p)[:96])); first = False
